@@ -86,6 +86,9 @@ def run_block(family, p, acc):
     if family == "blocked":
         descs = K.block_descs(tier)
         for da in descs[p["a0"]:p["a1"]]:
+            for B in K.tiny_probes(K.expand(da)):
+                check_pair(da, B, acc, "blocked")
+                check_pair(B, da, acc, "blocked")
             for db in descs:
                 check_pair(da, db, acc, "blocked")
                 acc.case(("blocked", da["pat"], da["n"], db["pat"], db["n"]), nontrivial=True, outcome=("blocked", da["pat"], db["pat"]), sample=lambda: {"universe": "blocked", "A": da, "B": db})
